@@ -14,6 +14,8 @@ CONSTANTS
   Vers = {0, 1}
   FixH4 = FALSE
   SysZeroWrites = FALSE
+  SplitReads = FALSE
+  AtomicLegacyReads = TRUE
   FilterReorgInBatch = TRUE
   MaxSteps = 16
   SimMaxOps = 5
